@@ -585,7 +585,7 @@ func (c *checker) shrink(in caseInput, f finding) (caseInput, finding) {
 func (c *checker) features(op *Op) string {
 	set := map[string]bool{}
 	type ctx struct {
-		underResolver, underNullableList, underNestedList, inMemberFragment bool
+		underResolver, underPlainOfResolver, underNullableList, underNestedList, inMemberFragment bool
 	}
 	var walk func(typeName string, list []*Sel, x ctx, depth int)
 	walk = func(typeName string, list []*Sel, x ctx, depth int) {
@@ -621,8 +621,10 @@ func (c *checker) features(op *Op) string {
 					switch kind {
 					case "resolver":
 						set["field resolver"] = true
-						if x.underResolver {
-							set["field resolver below a field resolver"] = true
+						if x.underPlainOfResolver {
+							set["field resolver below a plain field inside the selection of a field resolver"] = true
+						} else if x.underResolver {
+							set["field resolver directly below a field resolver"] = true
 						}
 						if x.underNestedList {
 							set["field resolver below a nested list"] = true
@@ -634,6 +636,7 @@ func (c *checker) features(op *Op) string {
 							set["field resolver inside a fragment on a possible type"] = true
 						}
 						nx.underResolver = true
+						nx.underPlainOfResolver = false
 					case "requires":
 						set["@requires field"] = true
 					}
@@ -644,6 +647,9 @@ func (c *checker) features(op *Op) string {
 					} else if !fd.Type.NonNull {
 						nx.underNullableList = true
 					}
+				}
+				if kind == "plain" && x.underResolver && isComposite(c.e.schema.Types[fd.Type.Name()]) {
+					nx.underPlainOfResolver = true
 				}
 				nx.inMemberFragment = false
 				if x.inMemberFragment && kind != "resolver" {
@@ -839,15 +845,21 @@ func TestCheck(t *testing.T) {
 		debug.SetMemoryLimit(mb << 20)
 	}
 
-	depth := vk.Pick(run, 3, 4)
-	width := vk.Pick(run, 2, 3)
-	size := vk.Pick(run, 4, 5)
-	pairSize := vk.Pick(run, 0, 3)
-	salts := vk.Pick(run, []uint64{1}, []uint64{1, 2})
-	if s := os.Getenv("C20_SIZE"); s != "" {
-		fmt.Sscan(s, &size)
+	type universe struct {
+		salt                         uint64
+		depth, width, size, pairSize int
 	}
-	run.Rule("base operations = every selection tree with depth<=D, <=W items per selection set and <=N field nodes below each root field of the menu (queries, mutations, two-root-field queries, _entities lookups), fields drawn from the first field of every mapping-construct class of each type; for each base operation every single reformulation site (alias, aliased copy, duplicate, reorder, inline fragment / named fragment around every run, drop, add __typename), thorough: every pair for base operations up to pair_size fields; an outcome is distinct when the set of RPC methods invoked or the key/null/list-length skeleton of the answer differs")
+	// quick: one universe, depth<=3 width<=2 size<=4, single reformulations.
+	// thorough: universe 1 with depth<=4 width<=3 size<=5 (+ pairs up to 3 field nodes),
+	// universe 2 (other values, other list lengths / nulls / oneof arms) with the quick bounds.
+	universes := vk.Pick(run, []universe{{1, 3, 2, 4, 0}}, []universe{{1, 4, 3, 5, 3}, {2, 3, 2, 4, 0}})
+	if s := os.Getenv("C20_SIZE"); s != "" {
+		for i := range universes {
+			fmt.Sscan(s, &universes[i].size)
+		}
+	}
+	depth, width, size, pairSize := universes[0].depth, universes[0].width, universes[0].size, universes[0].pairSize
+	run.Rule("base operations = every selection tree with depth<=D, <=W items per selection set and <=N field nodes below each root field of the menu (queries, mutations, two-root-field queries, _entities lookups), fields drawn from the first field of every mapping-construct class of each type; for each base operation every single reformulation site (alias, aliased copy, duplicate, reorder, inline fragment / named fragment around every run, drop, add __typename), thorough: also every pair for base operations up to pair_size field nodes, plus a second service universe at the quick bounds; an outcome is distinct when the set of RPC methods invoked or the key/null/list-length skeleton of the answer differs")
 	run.Assume(
 		"transport is a deterministic service: answer = hash(universe salt, method, request message); result lists aligned with keys/context; absent values only where the GraphQL schema allows null; recursion cut 9 messages deep",
 		"gqlparser's schema loader and validator decide validity of the generated operations and give field types / possible types to the shape checker",
@@ -862,7 +874,10 @@ func TestCheck(t *testing.T) {
 	run.Bound("max_field_nodes", size)
 	run.Bound("max_reformulations_per_case", vk.Pick(run, 1, 2))
 	run.Bound("pair_size_max_field_nodes", pairSize)
-	run.Bound("universes", len(salts))
+	run.Bound("universes", len(universes))
+	if len(universes) > 1 {
+		run.Bound("second_universe_bounds", map[string]int{"max_depth": universes[1].depth, "max_width": universes[1].width, "max_field_nodes": universes[1].size})
+	}
 	run.Bound("query_menu", queryMenu)
 	run.Bound("mutation_menu", mutationMenu)
 	run.Bound("two_root_field_menu", rootPairs)
@@ -891,7 +906,9 @@ func TestCheck(t *testing.T) {
 
 	var idx int64
 	total := 0
-	for _, salt := range salts {
+	for _, u := range universes {
+		salt := u.salt
+		depth, width, size, pairSize := u.depth, u.width, u.size, u.pairSize
 		e, err := newEnv(salt)
 		if err != nil {
 			t.Fatalf("INFRA: %v", err)
